@@ -3,6 +3,18 @@ import Tahoe.Dir.PackLemmas
 /-! C18 — read-only directory access is transitive (property theorems; models in
     `Tahoe/Dir/Authority.lean` (symbolic terms, Dolev–Yao derivability, handles) and `Tahoe/Dir/Pack.lean`
     (`_unpack_contents`, `create_from_cap`)). -/
+/-! ## Coverage of the statement (C18, properties.jsonl)
+
+| clause of the statement | theorem(s) |
+|---|---|
+| "through a read-only directory capability, every child … is obtained with read-only (or weaker) authority" | `ro_children_ro`, `createFromCap_none_rw` on the unpack model of C19 (`_unpack_contents` with `writeable = False`, `create_from_cap(None, ro_uri)`): no write cap on any child, for every packed entry whose ro slot holds what packing writes there |
+| "… and every descendant" | `read_only_is_transitive` (induction along any path of handles) |
+| the node cache must not hand a writeable node to a read-only parent (seeded C18-a) | **monitor only** (cold / warm walks with write attempts); the model has no cache |
+| "the directory contents a read-cap holder can decrypt do not reveal any child's write-cap" | `readcap_cannot_derive_child_writecap` (Dolev–Yao: read cap + all packed entries ⊬ any secret write cap), `derivable_good`; a cap given only as write authority never reaches a clear-text slot: `rw_only_cap_never_in_ro_slot`, `lone_unknown_cap_is_not_packed` |
+| per-child salt / key (no key-stream reuse between siblings, seeded C18-b) | the symbolic entry has `salt = H(rw_uri)` per child (`encryptRwUri`); key-stream xor is outside a symbolic model: **correspondence** (every rwcapdata recomputed) **+ monitor** (sibling-xor adversary) |
+| "only a holder of the directory's write-cap can recover the write-caps of its children" | `writecap_recovers` (derivation and `_decrypt_rwcapdata` computation) together with `readcap_cannot_derive_child_writecap` |
+| computational secrecy of AES-CTR / SHA-256d / HMAC, guessing attacks through the deterministic salt | **not covered** (symbolic model; stated in LEVEL_NOTE) |
+-/
 namespace Tahoe.C18
 open Tahoe.Dir.Authority Tahoe.Dir.Authority.Term
 open Tahoe.Dir.Pack
